@@ -72,6 +72,8 @@ def apply_faults(U, letters, layout, faults):
             unk = UNKNOWN[build.udim(U, l).get("dtype")] if build.udim(U, l).get("dtype") else ("zz_unknown" if isinstance(items[l][0], str) else 987654)
             rows[i] = [(dict(lab, **{l: unk}), v) for lab, v in rows[i]]
         elif k == "blank":
+            if not rows[i]:
+                continue
             c = f["dim"] % len(rows[i])
             lab, v = rows[i][c]
             rows[i][c] = (lab, None)
@@ -355,6 +357,98 @@ class Single(Facet):
         return run_fault_case(desc)
 
 
+class Fuzz(Facet):
+    """Coverage-guided campaign (atheris / libFuzzer) on fuzz/df_import_fuzz.py, thorough tier only:
+    16 shards x -runs, even shards from an empty corpus, odd shards from a few fixed seed inputs."""
+
+    name = "fuzz"
+    tiers = ("thorough",)
+    shards = {"quick": 0, "thorough": 16}
+    runs = 12000
+
+    def external(self, tier, seed, shard, nshards, suppressed):
+        import json
+        import shutil
+        import subprocess
+        import sys
+
+        from vlib import env
+        from vlib.runner import derive_seed
+
+        target = os.path.join(env.VERIF, "fuzz", "df_import_fuzz.py")
+        work = tempfile.mkdtemp(prefix=f"verif_fuzz_{shard}_")
+        try:
+            corpus = os.path.join(work, "corpus")
+            os.makedirs(corpus)
+            if shard % 2:
+                for i, b in enumerate([bytes(range(64)), b"\x01" * 48, bytes((7 * k + shard) % 256 for k in range(64)), b"\x02\x03\x01\x00\x02\x01" * 8]):
+                    open(os.path.join(corpus, f"seed{i}"), "wb").write(b)
+            s32 = derive_seed(seed, "C12", "fuzz", shard) % (2**31 - 1) + 1
+            cmd = [sys.executable, target, f"-runs={self.runs}", f"-seed={s32}", "-max_len=64", "-len_control=0", "-timeout=60", f"-artifact_prefix={work}/", corpus]
+            r = subprocess.run(cmd, capture_output=True, text=True, cwd=work, env=dict(os.environ, PYTHONHASHSEED="0"))
+            out = r.stderr + r.stdout
+            execs = 0
+            for line in out.splitlines():
+                if line.startswith("#") and ("DONE" in line or "pulse" in line or "NEW" in line or "REDUCE" in line):
+                    try:
+                        execs = max(execs, int(line.split()[0][1:]))
+                    except ValueError:
+                        pass
+            cov = [l for l in out.splitlines() if " cov: " in l]
+            crashes = [f for f in os.listdir(work) if f.startswith(("crash-", "timeout-", "oom-"))]
+            failure = None
+            samples = []
+            for f in sorted(os.listdir(corpus))[:2]:
+                d = subprocess.run([sys.executable, target, "--decode", os.path.join(corpus, f)], capture_output=True, text=True)
+                try:
+                    samples.append(json.loads(d.stdout.strip().splitlines()[-1]))
+                except Exception:
+                    pass
+            nontrivial = set()
+            from vlib.runner import fingerprint
+
+            for f in sorted(os.listdir(corpus)):
+                nontrivial.add(fingerprint(open(os.path.join(corpus, f), "rb").read().hex()))
+            if crashes:
+                cf = os.path.join(work, crashes[0])
+                d = subprocess.run([sys.executable, target, "--decode", cf], capture_output=True, text=True)
+                desc = json.loads(d.stdout.strip().splitlines()[-1])
+                try:
+                    run_fault_case(desc)
+                    bucket, msg = "fuzz-crash-not-reproduced", out[-400:]
+                except Violation as v:
+                    bucket, msg = v.bucket, v.msg
+                except Discard:
+                    bucket, msg = "fuzz-crash-not-reproduced", "discarded on replay"
+                except Exception as e:
+                    from vlib.runner import classify_exception
+
+                    v = classify_exception(e)
+                    if v is None:
+                        return {"harness_error": f"fuzz target crashed outside flodym: {e!r}\n{out[-800:]}"}
+                    bucket, msg = v.bucket, v.msg
+                if bucket not in suppressed:
+                    failure = {"bucket": bucket, "message": msg, "descriptor": dict(desc, _via="atheris")}
+            elif r.returncode != 0:
+                return {"harness_error": f"fuzz target exited {r.returncode} without artifact\n{out[-800:]}"}
+            return {
+                "evals": execs,
+                "discards": {},
+                "nontrivial": sorted(nontrivial),
+                "classes": {"corpus-entries": len(os.listdir(corpus)), "seeded-corpus" if shard % 2 else "empty-corpus": 1},
+                "samples": samples,
+                "excluded": {},
+                "failure": failure,
+                "coverage_line": cov[-1][:120] if cov else "",
+            }
+        finally:
+            shutil.rmtree(work, ignore_errors=True)
+
+    def run(self, desc):
+        d = {k: v for k, v in desc.items() if k != "_via"}
+        return run_fault_case(d)
+
+
 Prop(
     "C12",
     "fault_enumeration",
@@ -368,8 +462,9 @@ Prop(
     "(default: any fault but a dropped single-item dim column must raise; allow_missing: missing/blank -> 0 and every present "
     "entry under its labels; allow_extra: rows with unknown items ignored; duplicates always raise). Non-trivial = fault not in "
     "the first two rows, or a wide layout, or a combined fault.",
-    [Faults(), Single()],
+    [Faults(), Single(), Fuzz()],
     assumptions=[
+        "thorough tier adds facet 'fuzz': an atheris (libFuzzer) campaign of 16 x 12000 executions on fuzz/df_import_fuzz.py with the same oracles inside the target; distinct non-trivial = inputs libFuzzer kept in its corpus (new coverage); -seed pins a campaign only approximately, the saved descriptor is the reproducible unit",
         "unknown items have the dimension's declared type (an unparsable item for an int dimension fails type conversion before the flags apply)",
         "not asserted either way (contract silent): duplicates occurring only among ignored extra rows; a dropped item column of a wide frame under allow_missing_values",
         "relabelling the only column of a wide frame over a single-item dimension turns it into a valid long frame and is not a fault",
